@@ -21,7 +21,7 @@ def campaign(tier, seed):
             return st.load()
         t0 = time.time()
         build_harness()
-        maxparts, nmut = (2, 24) if tier == "quick" else (3, 160)
+        maxparts, nmut = (2, 24) if tier == "quick" else (3, 800)
         cfg = st.path("MC_Parse.cfg")
         open(cfg, "w").write("SPECIFICATION Spec\nCONSTANT MaxParts = %d\nINVARIANTS NeverPanics EmitCase\nCHECK_DEADLOCK FALSE\n" % maxparts)
         mc_out = st.path("mc.out")
